@@ -792,6 +792,9 @@ def m_json_loads(it, s, *a, **kw):
     return OpaqueVal(ufun('json_loads', PyStr, JsonSort)(t), 'json')
 
 
+from . import seq as _seq
+
+
 def opaque_subscript(it, o, k):
     ctx = it.ctx
     if o.tag == 'json':
@@ -802,6 +805,11 @@ def opaque_subscript(it, o, k):
             if not ctx.decide(f(o.term, str_term(k))):
                 raise_py(KeyError, k)
             return OpaqueVal(ufun('json_get', JsonSort, PyStr, JsonSort)(o.term, str_term(k)), 'json')
+    if o.tag == 'val' and is_str(k) and o.term.sort() == _seq.Val:
+        # a decoded document (sort Val) used as a dict: key presence and the value under a key are functions of the document
+        if not ctx.decide(_seq.v_has(o.term, str_term(k))):
+            raise_py(KeyError, k)
+        return OpaqueVal(_seq.v_get(o.term, str_term(k)), 'val')
     raise Unsupported("subscript of opaque %s" % o.tag)
 
 
